@@ -30,6 +30,10 @@ A handler behaviour is a pair (output ID class: declared / second declared / und
 case, empty]) x (data class: conforming / conforming with a different serialized form / non-conforming / nil [untyped,
 typed nil pointer, typed nil map]) - Steps.tla: BehTab.  An undeclared ID must give InvalidOutputError whatever the
 data; ConstraintError, which the SDK returns for any violated constraint, does not identify a failure.
+Every step (and its signal) carries a display of one of five shapes (none / name only / description only / icon
+only / all); no outcome may depend on it (Steps.tla: DisplayBlind).  cfg steps_display*: every single call of the
+universe - unknown step and signal IDs through both entry points included - on a schema of every assignment of a
+shape to each step; the random sessions draw the displays at random and log them for StepsTrace.
 The orchestrator hands
 the concrete forms of each raw-input class and handler behaviour out round-robin, so every form in the harness's
 tables is exercised.
@@ -183,6 +187,12 @@ def consume(ctx, cases, results, counts):
             elif case.get("racy"):
                 counts["raced"] += 1
             counts["timeouts"] += r.get("timeouts", 0)
+            shapes = sorted(set((case.get("display") or {}).values()) - {"none"})
+            if shapes:
+                for c in case["calls"]:
+                    if c["step"] == "nostep" or c["sig"] == "nosig":
+                        for sh in shapes:
+                            ctx.distinct.add("display/%s/%s" % (sh, call_key(c)))
             same = len({(c["step"], c["run"]) for c in case["calls"]}) < len(case["calls"])
             ctx.distinct.add("%s/%s/%s" % (sh, "samekey" if same else "diffkey",
                                            "|".join(sorted(call_key(c, case.get("mapsteps", ()), case.get("shortsteps", ()))
@@ -289,7 +299,8 @@ def run(ctx):
                 "struct-mapped/map-based, the map-based one also with raw inputs that omit a defaulted property or use "
                 "a representation accepted by lenient conversion, and with handler output values whose in-memory form "
                 "differs from the serialized form of its map-based output scope; one step with single-property input "
-                "and signal data objects called with the map spelling and with bare values in the shorthand) plus the order "
+                "and signal data objects called with the map spelling and with bare values in the shorthand; every "
+                "single call also on schemas of every assignment of a display shape to each step) plus the order "
                 "of releases and arrivals at the gates (call begin, initializer, handler, return); distinct = "
                 "distinct (sequential|concurrent, same|different (step,run), multiset of call classes); non-trivial = "
                 "all (no default configuration exists); random sessions add distinct (kind, situation, behaviour"
@@ -299,6 +310,11 @@ def run(ctx):
     cfgs = [("steps_thorough.cfg", "steps_thorough_full.cfg"), ("steps_thorough3.cfg", "steps_thorough3_full.cfg")] \
         if thorough else [("steps_quick.cfg", "steps_quick_full.cfg")]
     nvec = 0
+    # the display dimension (replayed below): in the quick tier the model is checked while the others run
+    dvec = os.path.join(ctx.tmp, "steps-vectors-display.ndjson")
+    dcfg = "steps_display_thorough.cfg" if thorough else "steps_display.cfg"
+    dpool = concurrent.futures.ThreadPoolExecutor(1)
+    display_run = None if thorough else dpool.submit(model_check, ctx, dcfg, dvec, 4)
     for i, (normal, full) in enumerate(cfgs):
         # every interleaving of every stage: the properties on the model (quick tier: checked while the schedules
         # are exported and replayed; its verdict is collected below, before anything is concluded)
@@ -320,6 +336,22 @@ def run(ctx):
         pool.shutdown()
         consume(ctx, cases, results, counts)
         nvec += len(cases)
+    # the display dimension: every single call on a schema of every assignment of a display shape to each step
+    if display_run is None:
+        model_check(ctx, dcfg, dvec)
+    else:
+        display_run.result()
+    dpool.shutdown()
+    dcases = common.read_ndjson(dvec)
+    if not dcases:
+        raise common.Infra("StepsMC/steps_display exported no schedule")
+    assign_variants(ctx, dcases, variant_counters)
+    dcases, dresults = run_driver(ctx, dvec + ".cases", dcases)
+    consume(ctx, dcases, dresults, counts)
+    ctx.sample(dict(calls=dcases[-1]["calls"], display=dcases[-1]["display"], res=dcases[-1]["res"]))
+    ctx.extra["single_calls_replayed_on_every_display_assignment"] = len(dcases)
+    ctx.extra["display_assignments"] = len({json.dumps(c.get("display"), sort_keys=True) for c in dcases})
+    nvec += len(dcases)
     ctx.traces += nvec
     ctx.exhaustive = True
     nforms = check_form_coverage(ctx, counts)   # raw-input forms and handler-output forms
